@@ -131,7 +131,7 @@ Qed.
 (* THE COMPOSITION for call sequences *)
 Theorem run_ops_from_file c ms :
   wf c = true -> anim c = true -> Forall2 (frame_decodes vp8 (fst (dims c)) (snd (dims c))) (frames c) ms ->
-  fst (dims c) * snd (dims c) * 4 < 4294967296 ->
+  fst (dims c) * snd (dims c) * 4 < 18446744073709551616 ->
   Anim_play.valid_file (anim_file c ms) /\
   exists dec, M.new (serialize c) = Ok dec /\
     forall ops buf, len buf = buffer_size c ->
@@ -150,7 +150,7 @@ Qed.
    decoder shows (Spec.Anim.cursor_run over Anim_history.kshown) *)
 Theorem history_independent_from_file c ms :
   wf c = true -> anim c = true -> Forall2 (frame_decodes vp8 (fst (dims c)) (snd (dims c))) (frames c) ms ->
-  fst (dims c) * snd (dims c) * 4 < 4294967296 ->
+  fst (dims c) * snd (dims c) * 4 < 18446744073709551616 ->
   exists dec, M.new (serialize c) = Ok dec /\
     forall ops buf, len buf = buffer_size c ->
       run_ops vp8 dec ops (initial_fstate dec) buf
@@ -169,7 +169,7 @@ Proof. revert i. induction l as [|x l IH]; intros [|i]; cbn [map nth_error optio
 
 Theorem clauses_from_file c ms :
   wf c = true -> anim c = true -> Forall2 (frame_decodes vp8 (fst (dims c)) (snd (dims c))) (frames c) ms ->
-  fst (dims c) * snd (dims c) * 4 < 4294967296 ->
+  fst (dims c) * snd (dims c) * 4 < 18446744073709551616 ->
   exists dec, M.new (serialize c) = Ok dec /\
     forall ops buf i, len buf = buffer_size c ->
       let F := anim_file c ms in
